@@ -3,7 +3,7 @@ From Coq Require Import List NArith ZArith String.
 From Tongo Require Import Lib.Bits Lib.Sx Harness.H06 Harness.H07 Harness.H01 Harness.H18
   Harness.H05 Harness.H13 Harness.H19 Harness.H12 Harness.H03 Harness.H04
   Harness.H11 Harness.H16 Harness.H17 Harness.H20 Harness.H08 Harness.H10
-  Harness.H07p Harness.H09 Harness.H14 Harness.H15.
+  Harness.H07p Harness.H09 Harness.H14 Harness.H15 Harness.H02.
 Import ListNotations.
 Local Open Scope string_scope.
 
@@ -112,4 +112,15 @@ Definition run (name : string) (a : sx) : sx :=
   else if is "c15.addr" then H15.run_addr a
   else if is "c15.next" then H15.run_next a
   else if is "c15.send" then H15.run_send15 a
+  else if is "c08.answer2" then H08.run_answer2 a
+  else if is "c19.hist" then H19.run_hist a
+  else if is "c10.bmarshal" then H10.run_bmarshal a
+  else if is "c10.bunmarshal" then H10.run_bunmarshal a
+  else if is "c10.hand" then H10.run_hand a
+  else if is "c02.history" then H02.run_history a
+  else if is "c02.built" then H02.run_built a
+  else if is "c02.builtkey" then H02.run_built_key a
+  else if is "c11.csend" then H11.run_csend a
+  else if is "c11.conc" then H11.run_conc a
+  else if is "c11.stress" then H11.run_stress a
   else sx_err "unknown case kind".
